@@ -187,6 +187,14 @@ PROPS["C15"] = {
     "exhaustive_thorough": True,
 }
 
+PROPS["C17"] = {
+    "level_text": "Trace_Path: the segment list of Bitmap::path() is replayed segment by segment through the pen machine of Path.tla (one TLC state per segment; step invariants: axis-parallel, non-zero, inside the bounding box, Move only directly after Close and relative to the closed sub-path's start, no empty sub-path); terminal predicate: all sub-paths closed and the even-odd fill (per-row prefix parity of toggled unit edges) equals the dark modules. Bitmap::pixels and Bitmap::unicode are compared with their closed forms. Exhaustive over all w x h arrays with dark top-left for w*h <= 12 (thorough: 16).",
+    "level_note": "Trusts: Path.tla pen semantics = SVG/PDF relative path semantics with the even-odd rule.",
+    "jobs": [{"family": "path", "spec": "Trace_Path", "coverage": True}],
+    "rule": "all bitmaps with dark top-left module and w*h <= 12 (16), nested rings / checkerboards / frames with islands up to 12x12, random arrays up to 40x40 (odd and even dimensions) at densities 0.2-0.8, encoder output for all 48 sizes, QR-sized and larger bitmaps (177x177 .. 600x64); non-trivial = bitmaps with at least two dark modules; distinct = distinct (w, pixels)",
+    "assumptions": [],
+}
+
 MC = {
     "MC_Codec": {"spec": "MC_Codec", "must_take": ["Write", "StartRead", "Read"], "timeout": 1800},
     "MC_Planner": {"spec": "MC_Planner", "must_take": ["PIterate"], "timeout": 600},
@@ -301,6 +309,10 @@ def account(pid, fam, case, verdict, ev):
                 ev["x_calls_in_batches"] = ev.get("x_calls_in_batches", 0) + 2 * e["n"]
             if e["ev"] == "EncodeEci":
                 ev["x_eci_numbers"] = ev.get("x_eci_numbers", 0) + len(e["ns"])
+    elif fam == "path":
+        if sum(case["px"]) >= 2:
+            ev["nontrivial"].add(hash((case["w"], tuple(case["px"]))))
+        ev["x_segments_validated"] = ev.get("x_segments_validated", 0) + (len(case["path"].get("segs", [])) if case["path"].get("kind") == "Ok" else 0)
     elif fam == "place":
         ev["nontrivial"].add(case["id"])
         ev["x_events_validated"] = ev.get("x_events_validated", 0) + len(case["events"])
